@@ -762,16 +762,10 @@ def random_ops(rng, spec, maxlen):
 
 
 def poly_center_reliable(spec, ops=None):
-    """center() branches on the float test `area() == 0`; for a zero-area vertex set that test is meaningful only when the
-    mean is exact, i.e. the number of averaged vertices is a power of two and the vertices have only been moved by dyadic amounts
-    (zero signed area includes symmetric self-intersecting shapes such as the bow-tie)"""
-    if not degenerate_poly(spec):
-        return True
-    if ops is not None and any(o[0] != 'move' for o in ops):
-        return False          # a rotation makes the coordinates inexact
-    vs = spec[1]
-    n = len(vs) - (1 if len(vs) > 1 and vs[0] == vs[-1] else 0)
-    return n in (1, 2, 4, 8)
+    """zero-area vertex sets (collinear points, symmetric bow-ties) used to be excluded from rotations, because center() tested
+    `area() == 0` exactly and rounding noise sent the centre to ~1e16 (repaired: the area is compared with the extent); they are
+    now generated like every other polygon"""
+    return True
 
 
 def degenerate_poly(spec):
@@ -809,8 +803,9 @@ def stream_small(R):
         seqs = [()]
         for L in range(1, maxlen + 1):
             seqs += list(itertools.product(alphabet, repeat=L))
-        if R.quick() and spec[0] in ('rect', 'ell') and spec[5] is not None and spec[5][0] == 'mult' and spec[5][2] != 0:
-            seqs = [()] + [(a,) for a in alphabet[:1] + alphabet[6:7]]
+        if spec[0] in ('rect', 'ell') and spec[5] is not None and spec[5][0] == 'mult' and spec[5][2] != 0:
+            # the near-multiple angles matter for the initial containment test: short sequences only
+            seqs = [()] + ([(a,) for a in alphabet[:1] + alphabet[6:7]] if R.quick() else [(a,) for a in alphabet])
         for ops in seqs:
             if not ops_valid(spec, ops):
                 continue
@@ -828,7 +823,8 @@ def stream_small(R):
     B.finish()
     R.stream('small', cases=n, exhaustive=True,
              bound='rectangles/ellipses at %d angles (k*pi/2 + {0, +-9e-13, +-1.2e-10, +-1.9e-9, +-1.5e-8}, Pythagorean), %d polygons (open/closed, list/numpy vertices), '
-                   'circle/annulus/range; all op sequences of length <= %d over a 9-letter alphabet (move, rotate, to_polygon)' % (len(angs), len(POLYS) * 4, maxlen))
+                   'circle/annulus/range; all op sequences of length <= %d over a 9-letter alphabet (move, rotate, to_polygon); regions whose initial angle is off a '
+                   'multiple of pi/2 by a small offset get sequences of length <= 1' % (len(angs), len(POLYS) * 4, maxlen))
 
 
 def ops_valid(spec, ops):
@@ -845,7 +841,7 @@ def ops_valid(spec, ops):
 
 def stream_random(R):
     B = Batch(R, 'random')
-    n = R.pick(700, 6000)
+    n = R.pick(700, 3500)
     for i in range(n):
         rng = R.subrng('random', i)
         spec = random_spec(rng)
